@@ -149,7 +149,7 @@ def rule_traps(ck, facts):
             if vs and all(v not in prod for v in vs):
                 ck.ok(R, "trap|%s|%s|dead-arm" % (f.short, name), {"instruction": name, "fn": f.short, "arm": vs[:4], "at": f.where(st)})
             else:
-                ck.bad(R, "trap|%s|%s|%s" % (f.short, name, "+".join(vs[:3]) if vs else "common"), "the WASM generator emits the trapping instruction %s in %s%s: for some run-time values dsp aborts with a wasm trap where the VM computes a value" % (name, f.short, (" (arm %s)" % ",".join(vs[:3])) if vs else ""), f.where(st))
+                ck.bad(R, "trap|%s|%s|%s" % (_trap_owner(facts, f), name, "+".join(vs[:3]) if vs else "common"), "the WASM generator emits the trapping instruction %s in %s%s: for some run-time values dsp aborts with a wasm trap where the VM computes a value" % (name, f.short, (" (arm %s)" % ",".join(vs[:3])) if vs else ""), f.where(st))
     ck.floor(R, "wasm_instruction_constructions_scanned", total, 300)
     ck.setcount("trapping_instruction_sites", n)
 
@@ -269,11 +269,20 @@ def _ev(e, env):
     raise ValueError(op)
 
 
+def _trap_owner(facts, f):
+    from .c03_unsafe import _owner
+
+    return _owner(facts, f)
+
+
 def rule_alloc_grow(ck, facts):
     R = "C03.alloc-grow"
     ck.rule(R, "the run-time bump allocator emitted by the WASM generator grows the linear memory by at least the missing bytes before it commits the new allocation pointer: with end = pointer + size, the argument of memory.grow evaluated on the emitted instruction template satisfies pages * 65536 >= end - memory_bytes at the page boundaries, the growth is guarded by end > memory_bytes, a failed growth traps, and the committed pointer is end")
     lang = facts.crate(roles.LANG)
-    fs = [f for f in lang.fns if f.short.endswith("WasmGenerator::emit_runtime_alloc")]
+    # the run-time allocator template by role: the function of the WASM generator that emits `memory.grow` (the
+    # instruction constant may live in a promoted body of that function)
+    roots = {g.root for g in lang.fns if "::compiler::wasmgen" in g.path and any(s2[KIND] == "a" and s2[5][0] == "agg" and s2[5][1][0] == "adt" and "wasm_encoder" in s2[5][1][1] and s2[5][1][3] == "MemoryGrow" for _, s2 in g.all_stmts())}
+    fs = [f for f in lang.fns if f.path in roots]
     ck.require(R, len(fs) == 1, "anchor|emit_runtime_alloc", "WasmGenerator::emit_runtime_alloc not found")
     if len(fs) != 1:
         return
